@@ -166,6 +166,40 @@ def run(tier, repo):
         self_lt = set(re.findall(r"'(\w+)", pr["inputs"][0]))
         out_lt = set(re.findall(r"'(\w+)", pr["output"]))
         rp.check(out_lt == self_lt and out_lt, "SIG-LIFETIMES", "parse_record", site(pr), "result of parse_record must be tied to the parser borrow (it may point into the internal buffer)", found=(pr["inputs"], pr["output"]))
+    # 6. the defragmenter copies only when it must
+    rp.rule("DEFRAG-NOCOPY", "TlsRecordsParser: a result parsed from the internal buffer is returned only on paths where defragmentation was already in progress; bytes are appended to the buffer only there or after "
+                             "the zero-copy attempt on the caller's record answered Incomplete/Complete; parse_record_nocopy never touches the buffer")
+    from ..paths import PathExec, Unrec
+    n_paths = 0
+    for m in ("parse_record", "parse_record_nocopy"):
+        f = F.fn("tls_records_parser::TlsRecordsParser::" + m)
+        if not rp.check(f is not None, "DEFRAG-NOCOPY", m + "/present", "src/tls_records_parser.rs", "method %s not found" % m):
+            continue
+        try:
+            got = PathExec(F, f).run()
+        except Unrec as u:
+            rp.fail("DEFRAG-NOCOPY", m + "/unrecognised", site(f), "construct the path analysis cannot read: %s" % u)
+            continue
+        for guards, actions, exit_ in got:
+            n_paths += 1
+            key = "%s/%s" % (m, "/".join(guards) or "-")
+            uses_buf = [a for a in actions if a.startswith("Parse(") and not a.startswith("Parse(data)")]
+            appends = [a for a in actions if a.startswith("Extend") or a.startswith("Push") or a.startswith("Append")]
+            in_prog = "in_progress" in guards
+            retry = any(g.startswith("parse(data)=") and (g.endswith("=Incomplete") or "Complete)" in g) for g in guards)
+            if m == "parse_record_nocopy":
+                rp.check(not uses_buf and not appends, "DEFRAG-NOCOPY", key, site(f), "parse_record_nocopy touches the internal buffer: %s" % list(actions), found=list(actions), why_ok="parses the caller's record only")
+                continue
+            ok = True
+            if uses_buf and not in_prog:
+                ok = False
+                rp.fail("DEFRAG-NOCOPY", key + "/parse", site(f), "a record is parsed from the internal copy although no defragmentation was in progress: the result aliases the parser's buffer, not the caller's record", found=list(actions))
+            if appends and not (in_prog or retry):
+                ok = False
+                rp.fail("DEFRAG-NOCOPY", key + "/copy", site(f), "record bytes are copied into the internal buffer before the zero-copy attempt reported a fragment", found=list(actions))
+            if ok:
+                rp.ok("DEFRAG-NOCOPY", site(f), key, "%s" % (list(actions),))
+    rp.floor("defragmenter_paths", n_paths, 22)
     rp.floor("signatures", n_sig, 80)
     rp.check(F.meta["unsafe_code_level"] == "Forbid", "SIG-LIFETIMES", "forbid-unsafe", "src/lib.rs", "#![forbid(unsafe_code)] is required for the borrow checker to guarantee that returned slices derive from the input", found=F.meta["unsafe_code_level"])
     rp.assume("rustc's borrow checker: with no unsafe code, a &'a [u8] in a result derives from an input of lifetime 'a or is 'static (the NO-STATIC-BYTES rule excludes the latter for parsed values)")
